@@ -17,7 +17,7 @@ def resync_part(rep, tier):
 CONSTANTS
   MaxLen = %d
   Alphabet = {"L", "O", "B", "J", "x"}
-INVARIANTS FindsFirstSignature Vector
+INVARIANTS FindsFirstSignature Progress Vector
 CHECK_DEADLOCK FALSE
 """ % maxlen)
     res = vlib.run_tlc("Resync", cfg, "c09_resync_" + tier, workers=16, timeout=1500, heap="16g")
@@ -33,7 +33,8 @@ CHECK_DEADLOCK FALSE
     n = 0
     with open(vec, "w") as f:
         for v in res["lines"]:
-            f.write("%s %d %d %d %d\n" % ("".join(v["filler"]) or "-", v["g"], v["reads"], v["seeks"], 1 if v["found"] else 0))
+            f.write("%s %d %d %d %d %d\n" % ("".join(v["filler"]) or "-", v["g"], v["reads"], v["seeks"], 1 if v["found"] else 0,
+                                               1 if v["tail"] else 0))
             n += 1
     exes = vlib.build("plain", ["drv_resync"])
     results, other, rc, err = vlib.run_driver(exes["drv_resync"], [vec], timeout=900)
@@ -47,11 +48,11 @@ CHECK_DEADLOCK FALSE
     rep.cov["resync_opcount_differs"] = r.get("opcount_differs", 0)
     rep.cov["samples"].append(dict(kind="filler vector", filler="".join(res["lines"][n // 2]["filler"]),
                                    expected=res["lines"][n // 2]))
-    if r["paths"] != n:
-        raise vlib.ToolError("resync driver consumed %d of %d vectors" % (r["paths"], n))
     if r["mismatches"]:
         rep.violation("resync:mismatch", "ObjectHeaderBase::read differs from the Resync automaton on %d fillers; "
                       "first: %s" % (r["mismatches"], r.get("first")), r)
+    elif r["paths"] != n:
+        raise vlib.ToolError("resync driver consumed %d of %d vectors" % (r["paths"], n))
 
 
 def session_grid(tier):
